@@ -1085,6 +1085,18 @@ def check_C18(chk, tier, seed):
             chk.corr_break("accessor observation differs from the model", dict(case=c, impl=short(im, 3000), model=short(mo, 3000)))
         if i % max(1, len(cases) // 6) == 0:
             chk.sample(dict(case=c, impl=short(im, 200), P=not why))
+    # messages that grow past what a Message Length field can carry (16 MiB): add() appends whatever it is given - whether such a
+    # message can be ENCODED is another matter (C05) - so the list and the lookups still see every AVP, in order
+    for (n, size) in ((3, 16), (17, 1 << 20), (40, 1 << 19)):
+        im = core.run_sharded([eng.harness, "codec"], eng.prelude, [f"GBIG {n} {hx(size)}"], shards=1, timeout=300)[0]
+        chk.case(f"GBIG {n} {size}", True)
+        chk.validated += 1
+        chk.count("built-past-16MiB" if n * size > (1 << 24) else "built-small")
+        padded = (8 + size + 3) // 4 * 4
+        want = f"GBIG count={n + 2} big={n} tail=3f4,10c first1011=0 first1012={n} first268={n + 1} length={20 + n * padded + 12 + 12}"
+        if im != want:
+            chk.violation("a message built from many large AVPs does not hold exactly the AVPs it was given, in order (get_avps / get_avp / reported length)",
+                          dict(case=f"GBIG {n} {hx(size)}", impl=short(im, 400), expected=want))
     chk.rule = ("type table + generated construction histories (repeated codes under different vendors/types, groups) + decoded-then-extended frames; "
                 "for the final message: all 16 typed accessors on every AVP (recursively through Grouped::avps()), get_avp for 7 codes (present, repeated, "
                 "absent) identified by pointer position in get_avps(); non-trivial = at least two top-level AVPs")
